@@ -586,6 +586,12 @@ def rule_baseline_degree(chk, prog):
     chk.count("native exchange helpers", len(helpers))
 
 
+def rule_grad_pairing_shared(chk, prog, tree):
+    import importlib
+    c11 = importlib.import_module("checks.c11")
+    c11.rule_grad_pairing(chk, prog, tree)
+
+
 def rule_baseline_singular(chk, prog):
     """C08's non-finite-taint rule restricted to the native baselines (same engine, same code)."""
     import importlib
@@ -1007,6 +1013,11 @@ def _analyse_own(chk):
         c_, prog, list(LADDER_CLASSES) + [(m_.rel, k_.name) for m_, k_ in evaluator_classes(prog)]))
     chk.floor("stale-loop-var", 4, "methods with loops in the evaluator base classes and FuncEvaluator subclasses")
     chk.guard(rule_mode_ladders, prog)
+    # C kernels: the gradient stores pair with the value's exponent terms and no (sample, control) pair is skipped
+    # on a condition on the sample (C11's grad-pairing rule, same code): the derivative is the gradient of the value
+    chk.rule("grad-pairing", "C kernels: gradient calls differentiate the factor they are given; no sample-conditioned skip")
+    chk.guard(rule_grad_pairing_shared, prog, tree)
+    chk.floor("grad-pairing", 5, "gradient calls and completeness obligations of the 3 bound kernels")
     chk.rule("fwd-bwd-point", "per spin mode, fill_derivs_ receives the same input point as fill_vals_")
     chk.guard(rule_fwd_bwd_point, prog)
     chk.floor("fwd-bwd-point", 3, "2 classes x 3 modes")
@@ -1123,6 +1134,10 @@ def mutants(tree):
                "            X0T_sum = X0T.mean(0)\n            X1 = np.zeros((Nsamp, N1))\n            self.feature_list.fill_vals_(X1.T, X0T_sum)\n        else:\n            raise NotImplementedError\n        if force_polarize",
                "            X0T_sum = X0T.sum(0)\n            X1 = np.zeros((Nsamp, N1))\n            self.feature_list.fill_vals_(X1.T, X0T_sum)\n        else:\n            raise NotImplementedError\n        if force_polarize",
                expect="fwd-bwd-point"),
+        Mutant("antisym kernel: pair skipped when the first two sample features coincide", MU_C_REL,
+               "            double fac = _evaluate_se(xi + 2, xc + 2, exps + 1, nfeat - 2);",
+               "            if (xi[0] == xi[1] || xc[0] == xc[1]) {\n                continue;\n            }\n            double fac = _evaluate_se(xi + 2, xc + 2, exps + 1, nfeat - 2);",
+               expect="grad-pairing"),
         Mutant("linear evaluator overwrites res", XE, "res[:] += X1.dot(self.consts)", "res[:] = X1.dot(self.consts)",
                expect="accumulate-py"),
         Mutant("spline evaluator overwrites dres columns", XE, "dres[:, ind_set] += dy * self.scale[t]",
